@@ -449,7 +449,8 @@ class TorrentFile(MetaFile, ProgMixin):
         kws = {
             "progress": self.progress,
             "progress_bar": None,
-            "align": self.align,
+            # a single file has no padding entries: it is hashed alone
+            "align": self.align and not os.path.isfile(self.path),
         }
 
         if self.progress == 2:
